@@ -38,6 +38,9 @@ CFGS = {
     # C16: every output enabled (HLS, HTTP-TS, FLV + TS recording, hook), inputs of every kind, shutdown
     "F1": dict(RtmpPubs=["p1", "p2"], RtspPubs=[], CustPubs=["k1"], PsPubs=["g1"], RtmpSubs=["s1"], FlvSubs=[],
                PullRetry=0, PullAuto=-1, PullEnabled=False, Outputs=True, Shutdown=True),
+    # HTTP-TS subscribers next to the others (stat listing, notifications, kick, group liveness)
+    "L3": dict(RtmpPubs=["p1", "p2"], RtspPubs=[], CustPubs=["k1"], PsPubs=[], RtmpSubs=["s1"], FlvSubs=[], TsSubs=["h1", "h2"],
+               PullRetry=0, PullAuto=-1, PullEnabled=False),
     "L2": dict(RtmpPubs=["p1"], RtspPubs=[], CustPubs=["k1"], PsPubs=["g1"], RtmpSubs=[], FlvSubs=["f1"],
                PullRetry=0, PullAuto=-1, PullEnabled=False),
 }
@@ -52,6 +55,7 @@ def write_cfg(cid, mode, max_tick, max_att):
     lines = ["SPECIFICATION TraceSpec" if mode == "trace" else "SPECIFICATION Spec", "CONSTANTS"]
     for k in ("RtmpPubs", "RtspPubs", "CustPubs", "PsPubs", "RtmpSubs", "FlvSubs"):
         lines.append("  %s = %s" % (k, tla_set(c[k])))
+    lines.append("  TsSubs = %s" % tla_set(c.get("TsSubs", [])))
     for k in ("PullRetry", "PullAuto"):
         lines.append("  %s %s" % (k, ("<- Neg1" if c[k] == -1 else "= %d" % c[k])))
     lines.append("  PullEnabled = %s" % ("TRUE" if c["PullEnabled"] else "FALSE"))
@@ -88,7 +92,8 @@ def drv_cfg(cid):
     return {"rtmpPubs": c["RtmpPubs"], "rtspPubs": c["RtspPubs"], "custPubs": c["CustPubs"], "psPubs": c["PsPubs"],
             "rtmpSubs": c["RtmpSubs"], "flvSubs": c["FlvSubs"], "pullRetry": c["PullRetry"],
             "pullAutoMs": (-1 if c["PullAuto"] < 0 else c["PullAuto"] * 700), "hook": c.get("Hook", True), "outputs": c.get("Outputs", False), "leak": 0,
-            "pushTargets": c.get("Push", []), "paramLen": c.get("ParamLen", 0), "wirePubs": c.get("WirePubs", [])}
+            "pushTargets": c.get("Push", []), "paramLen": c.get("ParamLen", 0), "wirePubs": c.get("WirePubs", []),
+            "tsSubs": c.get("TsSubs", [])}
 
 
 def signature(r):
